@@ -13,7 +13,16 @@ EVAL_ASSUME = COMMON_ASSUME + [
     'queries are non-empty (parser invariant, not verified)',
 ]
 
+KANI_ASSUME = [
+    'Kani 0.68 / CBMC 6.11 / SAT back ends; rustc MIR of the real crate',
+    'machine arithmetic is bit-precise in Kani; termination is not proved by Kani',
+]
+
 PROPS = {
+    'C13': dict(level='proof', vgroups=[], kunits=['U-cmp-int', 'U-cmp-float', 'U-cmp-char-null-bool', 'U-cmp-types', 'U-peq', 'U-within', 'U-unary-op-k'],
+                assumptions=KANI_ASSUME,
+                not_under_contract=['regex engine (fancy_regex) - trusted', 'string order beyond the bounded unit', 'list/map equality beyond the bounded unit'],
+                explanation=''),
     'C02': dict(level='proof', vgroups=['eval', 'eval_disp'], kunits=[], assumptions=EVAL_ASSUME,
                 not_under_contract=['query_retrieval_with_converter (Filter records)', 'RootScope::rule_status', 'RecordTracker (bounded only)'],
                 explanation=''),
@@ -23,4 +32,4 @@ PROPS = {
                 not_under_contract=['Validate::execute exit-code folding (inline, I/O)', 'evaluate_rule', 'main'], explanation=''),
 }
 
-HOOK_COMMITS = []
+HOOK_COMMITS = ['cb466a2']
